@@ -43,7 +43,7 @@ CHECKS = {
    technique="TLC-generated corpus (Lang.tla) + differential replay source vs bytecode + fault enumeration on the serialised form"),
  "C02": dict(
    level="model_checking",
-   text="Programs: the well-typed Lang.tla corpus, the Retype mutants of Lang.tla (a hole silently changes its expected type; the real checker decides whether to accept), annotation-dropping variants, and multi-module programs (plain and IO-typed imported module). Every accepted program is compiled and run under a pairwise covering array (quick) or all 32 combinations (thorough) of the five compiler settings; no run may end in an internal compiler error, a VM shape complaint or a host panic, and the returned value must have the shape of the reported type (checked by an independent shape checker over the printed type).",
+   text="Programs: the well-typed Lang.tla corpus, the Retype mutants of Lang.tla (a hole silently changes its expected type; the real checker decides whether to accept), annotation-dropping variants, and multi-module programs (plain and IO-typed imported module). Every accepted program is compiled and run under a pairwise covering array (quick) or all 32 combinations (thorough) of the five compiler settings; the ML-fragment terms of LangW.tla and its generalisation-sensitive skeleton family `(\\x -> let g = \\y -> H in K) A` (TLC enumerates the fillers of H, K, A; all ~36 000 members run) are included; no run may end in an internal compiler error, a VM shape complaint or a host panic, and the returned value must have the shape of the reported type (checked by an independent shape checker over the printed type).",
    design="5 (C02)",
    note="the oracle for mutants is the property itself (accepted => does not go wrong); value shapes are judged for Int, Bool, Option, records, tuples, arrays, functions and the generated list type",
    technique="TLC generator with type-confusing mutation (Lang.tla PRetype) + replay under setting combinations"),
